@@ -279,7 +279,7 @@ enum ROp {
 fn case_strategy() -> impl Strategy<Value = Vec<u8>> {
     let op = prop_oneof![
         30 => fragment().prop_map(ROp::Bytes),
-        2 => (0usize..8).prop_map(ROp::Write),
+        2 => (0usize..16).prop_map(ROp::Write),
         2 => (0usize..5).prop_map(ROp::SetPrompt),
     ];
     (0u8..=64, 0u8..=64, any::<u8>(), proptest::collection::vec(op, 0..80)).prop_map(|(cb, hb, c, ops)| {
